@@ -62,7 +62,7 @@ func c19BgvRejects(c *Ctx) {
 		n2 := uint64(2) << uint(logN)
 		a := c19PrimeWithBits(c, 45, n2, nil)
 		b := c19PrimeWithBits(c, 30, n2, map[uint64]bool{a: true})
-		p0 := c19PrimeWithBits(c, 40, n2, map[uint64]bool{a: true, b: true})
+		p0 := c19PrimeWithBits(c, 22, n2, map[uint64]bool{a: true, b: true}) // small: as a plaintext modulus it must leave a noise budget at level 0
 		p1 := c19PrimeWithBits(c, 20, n2, map[uint64]bool{a: true, b: true, p0: true})
 		Q := []uint64{a, 65537, b} // the plaintext modulus 65537 is a LATER prime of the chain
 		P := []uint64{p0, p1}
